@@ -31,7 +31,7 @@ pub struct C13Case {
     pub opts: SolveOpts,
 }
 
-pub const FAMILIES: &[(&str, u64)] = &[("tiny", 3), ("tiny-hints", 3), ("tiny-soft", 2), ("tiny-hints-soft", 2), ("medium", 2), ("medium-hints", 2), ("conf", 2), ("conf-hints", 2), ("hostile", 1), ("big", 1), ("many", 1), ("many-hints", 1), ("wide", 1), ("many-soft", 1)];
+pub const FAMILIES: &[(&str, u64)] = &[("tiny", 3), ("tiny-hints", 3), ("tiny-soft", 2), ("tiny-hints-soft", 2), ("medium", 2), ("medium-hints", 2), ("conf", 2), ("conf-hints", 2), ("hostile", 1), ("big", 1), ("many", 1), ("many-hints", 1), ("wide", 1), ("many-soft", 1), ("huge", 1), ("hub-hints", 1)];
 
 impl Monitor for C13 {
     type Case = C13Case;
@@ -69,10 +69,28 @@ impl Monitor for C13 {
             }
             problems.push(q);
         }
-        let len = 2 + r.below(5) as usize;
+        // one history in forty is LONG: 20..80 calls on one solver over a pool of 8 problems
+        let long = r.chance(1, 40) && !crate::report::small();
+        if long {
+            for _ in 0..4 {
+                let mut q = Prob::default();
+                if !u.vsets.is_empty() {
+                    for _ in 0..1 + r.below(3) {
+                        q.reqs.push(Req::Single(r.below(u.vsets.len() as u64) as u32));
+                    }
+                }
+                if r.chance(1, 3) {
+                    for _ in 0..r.below(6) {
+                        q.soft.push(r.below(u.solvs.len() as u64) as u32);
+                    }
+                }
+                problems.push(q);
+            }
+        }
+        let len = if long { 20 + r.below(60) as usize } else { 2 + r.below(5) as usize };
         let mut history = vec![];
         for i in 0..len {
-            let problem = if r.chance(1, 2) { 0 } else { r.below(problems.len() as u64) as usize };
+            let problem = if r.chance(1, if long { 6 } else { 2 }) { 0 } else { r.below(problems.len() as u64) as usize };
             let cancel = if i + 1 < len && r.chance(2, 5) {
                 let k = r.below(12) as usize;
                 if r.chance(2, 3) { Cancel::Transient(k) } else { Cancel::Sticky(k) }
@@ -101,6 +119,7 @@ impl Monitor for C13 {
         ctx.rep.distinct.insert(h);
         ctx.rep.count(&format!("family:{}", c.family));
         ctx.rep.count("histories");
+        ctx.rep.max("max-calls-in-one-history", c.history.len() as u64);
         let mut sess = Session::new(u.clone(), &c.opts);
         let mut consumed = 0usize;
         let mut completed: BTreeMap<String, u32> = BTreeMap::new();
